@@ -78,8 +78,14 @@ def fmt_table(table):
 
 
 def _root_name(expr):
-    while isinstance(expr, (ast.Subscript, ast.Attribute)):
-        expr = expr.value
+    while True:
+        if isinstance(expr, (ast.Subscript, ast.Attribute)):
+            expr = expr.value
+        elif isinstance(expr, ast.Call) and isinstance(expr.func,
+                                                       ast.Attribute):
+            expr = expr.func.value      # x.ravel()[i] = v writes into x
+        else:
+            break
     return expr if isinstance(expr, ast.Name) else None
 
 
@@ -96,7 +102,8 @@ def derived_names(func_node, seeds, through_calls=True):
             if isinstance(node, ast.Assign):
                 src, targets = node.value, [
                     t if not isinstance(t, ast.Subscript) else
-                    _root_name(t) or t for t in node.targets]
+                    _root_name(t) or ast.Tuple(elts=[], ctx=ast.Store())
+                    for t in node.targets]
             elif isinstance(node, ast.AugAssign):
                 src, targets = node.value, [node.target]
             elif isinstance(node, (ast.For, ast.comprehension)):
